@@ -10,6 +10,9 @@
      read_molfile_nozero        graph_from_molfile_text: nozero and charge <> Some 0 on every atom
      read_molfile_labels        nodes are 0..n-1, in order; partition 0 everywhere
      read_molfile_bonds_in_range  every bond endpoint is a node
+     read_molfile_no_self_bond  no bond from an atom to itself (section 6: both readers reject such a line)
+     read_molfile_nonneg / read_molfile_positive   stored masses / radicals are >= 0, hence >= 1
+     read_molfile_wfg           wfg: distinct labels, irreflexive bonds, endpoints in range
 
    It is the formal counterpart of the repaired reader defect ("MASS=0 RAD=0 CHG=0" used to be
    stored as zeros).  The generated tables are inspected through one boolean check only
@@ -283,8 +286,8 @@ Proof.
   destruct (Hbd b Hb) as [H1 H2]. unfold ends; simpl. rewrite !Nseq_in_iff. lia.
 Qed.
 
-(* what C01 / C04 ask for, in one statement: every hypothesis about the input graph except
-   "no self loop" (a molfile may contain a bond from an atom to itself) *)
+(* what C01 / C04 ask for, in one statement; "no self loop" is read_molfile_no_self_bond in
+   section 6 (the readers reject a bond from an atom to itself), all of wfg is read_molfile_wfg *)
 Corollary read_molfile_ready : forall s g, V2000.read_molfile s = ok g ->
   NoDup (labels g) /\
   (forall b, In b (bonds g) -> In (fst (ends b)) (labels g) /\ In (snd (ends b)) (labels g)) /\
@@ -366,9 +369,387 @@ Example ex2000_graph :
               [(0%N, 1%N, 1%Z); (0%N, 2%N, 1%Z)]).
 Proof. vm_compute. reflexivity. Qed.
 
+(* ------------------------------------------------------------------------------------ *)
+(* 6. no bond from an atom to itself, no negative mass / radical                          *)
+(* ------------------------------------------------------------------------------------ *)
+(* Both readers reject a bond line that names the same atom twice and a negative MASS / RAD value
+   (V3000: the last written value; V2000: any entry of an "M  RAD" / "M  ISO" line).  Hence, for
+   EVERY text the readers accept:
+
+     read_v3000_no_self_bond / read_v2000_no_self_bond     the two keys of every bond differ
+     read_v3000_nonneg / read_v2000_nonneg                 stored masses / radicals are >= 0
+     read_molfile_no_self_bond                             no edge u-u in the graph
+     read_molfile_nonneg, read_molfile_positive            mass / rad >= 0, hence (nozero) >= 1       *)
+
+Definition ratom_nonneg (a : ratom) : Prop :=
+  (forall v, r_mass a = Some v -> (0 <= v)%Z) /\ (forall v, r_rad a = Some v -> (0 <= v)%Z).
+Definition rbond_irrefl (b : rbond) : Prop := fst (fst b) <> snd (fst b).
+Definition key_irrefl (p : Z * Z * Z) : Prop := fst (fst p) <> snd (fst p).
+
+Lemma existsb_false_Forall {A} (f : A -> bool) l : existsb f l = false -> Forall (fun x => f x = false) l.
+Proof.
+  induction l as [|x r IH]; simpl; intros H; [constructor|].
+  apply orb_false_iff in H. destruct H as [H1 H2]. constructor; [exact H1|exact (IH H2)].
+Qed.
+
+(* ---- V3000 ---- *)
+Lemma last_nonzero_nonneg l v : V3000.last_negative l = false -> V3000.last_nonzero l = Some v -> (0 <= v)%Z.
+Proof.
+  unfold V3000.last_negative, V3000.last_nonzero. destruct (rev l) as [|w r]; [discriminate|].
+  intros Hn. destruct (Z.eqb w 0); [discriminate|]. intros E. injection E as <-. apply Z.ltb_ge. exact Hn.
+Qed.
+
+Lemma v3000_parse_atom_line_nonneg line a : V3000.parse_atom_line line = ok (Some a) -> ratom_nonneg a.
+Proof.
+  unfold V3000.parse_atom_line. intros H.
+  do 3 inv_step H. inv_step H.
+  inv_step H. do 4 inv_step H. inv_step H. do 3 inv_step H. inv_step H.
+  injection H as <-.
+  match goal with C : (_ || _) = false |- _ => apply orb_false_iff in C; destruct C as [Cm Cr] end.
+  split; intros v Ev; cbn [r_mass r_rad] in Ev; [exact (last_nonzero_nonneg _ _ Cm Ev)|exact (last_nonzero_nonneg _ _ Cr Ev)].
+Qed.
+
+Lemma v3000_parse_atoms_Forall (Q : ratom -> Prop) :
+  (forall line a, V3000.parse_atom_line line = ok (Some a) -> Q a) ->
+  forall ls atoms stars atoms' stars',
+  Forall (fun p => Q (snd p)) atoms ->
+  V3000.parse_atoms ls atoms stars = ok (atoms', stars') ->
+  Forall (fun p => Q (snd p)) atoms'.
+Proof.
+  intros HQ. induction ls as [|l r IH]; intros atoms stars atoms' stars' Hinv H; simpl in H.
+  - injection H as <- <-. exact Hinv.
+  - do 3 inv_step H.
+    match goal with E : V3000.parse_atom_line l = ok ?o |- _ => destruct o as [a'|];
+      [ apply (IH _ _ _ _ (dict_set_Forall Z.eqb (fun p => Q (snd p)) _ _ _ Hinv (HQ l a' E)) H)
+      | apply (IH _ _ _ _ Hinv H) ] end.
+Qed.
+
+Theorem read_v3000_nonneg : forall lines atoms bonds,
+  V3000.read_v3000 lines = ok (atoms, bonds) -> Forall ratom_nonneg atoms.
+Proof.
+  intros lines atoms bonds H. unfold V3000.read_v3000 in H.
+  repeat inv_step H. injection H as <- _.
+  match goal with E : V3000.parse_atoms _ [] [] = ok (?l, ?l0) |- _ =>
+    apply (v3000_parse_atoms_Forall ratom_nonneg v3000_parse_atom_line_nonneg _ [] [] l l0) in E; [|constructor];
+    apply Forall_map; exact E end.
+Qed.
+
+Lemma fold_dict_set_irrefl (ty : Z) : forall (tuples : list (Z * Z)) (acc : list (Z * Z * Z)),
+  Forall key_irrefl acc -> Forall (fun k => fst k <> snd k) tuples ->
+  Forall key_irrefl (fold_left (fun d k => dict_set V3000.bkey_eqb k ty d) tuples acc).
+Proof.
+  induction tuples as [|k r IH]; intros acc Ha Ht; simpl; [exact Ha|].
+  inversion Ht as [|? ? Hk Hr]; subst. apply IH; [|exact Hr].
+  apply dict_set_Forall; [exact Ha|exact Hk].
+Qed.
+
+Lemma v3000_parse_bonds_irrefl ls : forall stars acc r,
+  Forall key_irrefl acc -> V3000.parse_bonds ls stars acc = ok r -> Forall key_irrefl r.
+Proof.
+  induction ls as [|l ls IH]; intros stars acc r Ha H; cbn [V3000.parse_bonds] in H.
+  - injection H as <-. exact Ha.
+  - do 6 inv_step H. cbv zeta in H. inv_step H. inv_step H.
+    match goal with C : existsb _ _ = false |- _ => apply existsb_false_Forall in C; rename C into Hx end.
+    apply (IH _ _ _ (fold_dict_set_irrefl _ _ _ Ha (Forall_impl _ (fun k Hk => proj1 (Z.eqb_neq _ _) Hk) Hx)) H).
+Qed.
+
+Theorem read_v3000_no_self_bond : forall lines atoms bonds,
+  V3000.read_v3000 lines = ok (atoms, bonds) -> Forall rbond_irrefl bonds.
+Proof.
+  intros lines atoms bonds H. unfold V3000.read_v3000 in H.
+  repeat inv_step H. injection H as _ <-.
+  apply Forall_map.
+  match goal with E : (if Z.eqb _ 0 then ok [] else _) = ok ?x |- Forall _ ?x => rename E into Eb end.
+  inv_step Eb.
+  - injection Eb as <-. constructor.
+  - repeat inv_step Eb. exact (v3000_parse_bonds_irrefl _ _ _ _ (Forall_nil _) Eb).
+Qed.
+
+(* ---- V2000 ---- *)
+Lemma v2000_parse_bond_lines_irrefl n ls : forall acc r,
+  Forall key_irrefl acc -> V2000.parse_bond_lines n ls acc = ok r -> Forall key_irrefl r.
+Proof.
+  induction ls as [|l ls IH]; intros acc r Ha H; cbn [V2000.parse_bond_lines] in H.
+  - injection H as <-. exact Ha.
+  - do 2 inv_step H. do 3 inv_step H. inv_step H.
+    match goal with C : Z.eqb _ _ = false |- _ => apply Z.eqb_neq in C; rename C into Hne end.
+    apply IH in H; [exact H|]. apply dict_set_Forall; [exact Ha|]. unfold key_irrefl; cbn [fst snd]; lia.
+Qed.
+
+Theorem read_v2000_no_self_bond : forall lines atoms bonds,
+  V2000.read_v2000 lines = ok (atoms, bonds) -> Forall rbond_irrefl bonds.
+Proof.
+  intros lines atoms bonds H. unfold V2000.read_v2000 in H.
+  repeat first [inv_step H | progress (cbv zeta in H)]. injection H as _ <-.
+  apply Forall_map.
+  match goal with E : V2000.parse_bond_lines _ _ [] = ok _ |- _ =>
+    exact (v2000_parse_bond_lines_irrefl _ _ _ _ (Forall_nil _) E) end.
+Qed.
+
+(* the only looks at the generated tables: no radical code stands for a negative value, no isotope
+   spelling for a negative mass *)
+Lemma charge_table_rad_nonneg :
+  forallb (fun p => fst (snd p) || Z.leb 0 (snd (snd p))) Elements.v2000_charge_table = true.
+Proof. vm_compute. reflexivity. Qed.
+
+Lemma charge_code_rad_nonneg c v : V2000.charge_code c = Some (false, v) -> (0 <= v)%Z.
+Proof.
+  unfold V2000.charge_code. generalize charge_table_rad_nonneg. generalize Elements.v2000_charge_table.
+  induction l as [|[k w] r IH]; simpl; intros Hc H; [discriminate H|].
+  apply andb_prop in Hc. destruct Hc as [Hw Hr].
+  destruct (Z.eqb k c).
+  - injection H as ->. simpl in Hw. apply Z.leb_le. exact Hw.
+  - exact (IH Hr H).
+Qed.
+
+Lemma isotope_table_nonneg : forallb (fun p => Z.leb 0 (snd (snd p))) Elements.hydrogen_isotope_table = true.
+Proof. vm_compute. reflexivity. Qed.
+
+Lemma detect_isotope_nonneg s : (0 <= snd (detect_isotope s))%Z.
+Proof.
+  unfold detect_isotope, hydrogen_isotopes. generalize isotope_table_nonneg. generalize Elements.hydrogen_isotope_table.
+  induction l as [|[k [e v]] r IH]; cbn [map assoc_text forallb fst snd]; intros Hc; [cbn; lia|].
+  apply andb_prop in Hc. destruct Hc as [Hv Hr].
+  destruct (text_eqb (t k) s); [cbn [snd]; apply Z.leb_le, Hv|apply IH, Hr].
+Qed.
+
+Lemma v2000_parse_atom_line_nonneg i line a : V2000.parse_atom_line i line = ok a -> ratom_nonneg a.
+Proof.
+  unfold V2000.parse_atom_line. intros H.
+  inv_step H. inv_step H. inv_step H. inv_step H. cbv zeta in H.
+  injection H as <-. unfold ratom_nonneg; cbn [r_mass r_rad].
+  match goal with D : detect_isotope ?s = (_, ?iso) |- _ =>
+    pose proof (detect_isotope_nonneg s) as Hiso; rewrite D in Hiso; cbn [snd] in Hiso end.
+  split; intros v Ev.
+  - match type of Ev with (if ?c then _ else _) = _ => destruct c end; [discriminate Ev|].
+    injection Ev as <-. exact Hiso.
+  - match type of Ev with match ?cc with _ => _ end = _ => destruct cc as [[[|] w]|] eqn:Ec end; try discriminate Ev.
+    injection Ev as <-. exact (charge_code_rad_nonneg _ _ Ec).
+Qed.
+
+Lemma v2000_parse_atom_lines_nonneg ls : forall i atoms, V2000.parse_atom_lines i ls = ok atoms -> Forall ratom_nonneg atoms.
+Proof.
+  induction ls as [|l r IH]; intros i atoms H; simpl in H.
+  - injection H as <-. constructor.
+  - do 2 inv_step H. injection H as <-. constructor.
+    + exact (v2000_parse_atom_line_nonneg _ _ _ E).
+    + exact (IH _ _ E0).
+Qed.
+
+(* the property block: every stored "M  RAD" / "M  ISO" value is >= 0 *)
+Definition extra_nonneg (e : V2000.extra) : Prop :=
+  (forall v, V2000.x_rad e = Some v -> (0 <= v)%Z) /\ (forall v, V2000.x_mass e = Some v -> (0 <= v)%Z).
+Definition dict_nonneg (d : list (Z * V2000.extra)) : Prop := Forall (fun p => extra_nonneg (snd p)) d.
+
+Definition get_extra (k : Z) : list (Z * V2000.extra) -> option V2000.extra :=
+  fix get (l : list (Z * V2000.extra)) :=
+    match l with [] => None | (k', e) :: r' => if Z.eqb k' k then Some e else get r' end.
+
+Lemma get_extra_nonneg k d e : dict_nonneg d -> get_extra k d = Some e -> extra_nonneg e.
+Proof.
+  intros Hd. induction Hd as [|[k' e'] r He _ IH]; simpl; intros H; [discriminate H|].
+  destruct (Z.eqb k' k); [injection H as <-; exact He|exact (IH H)].
+Qed.
+
+Lemma extra_nonneg_empty : extra_nonneg (V2000.mkExtra None None None).
+Proof. split; intros v E; discriminate E. Qed.
+
+Lemma set_extra_nonneg k v e : (k <> V2000.PChg -> (0 <= v)%Z) -> extra_nonneg e -> extra_nonneg (V2000.set_extra k v e).
+Proof.
+  intros Hv [Hr Hm]. destruct k; unfold extra_nonneg; cbn [V2000.set_extra V2000.x_rad V2000.x_mass].
+  - split; assumption.
+  - split; [|exact Hm]. intros w E. injection E as <-. apply Hv. discriminate.
+  - split; [exact Hr|]. intros w E. injection E as <-. apply Hv. discriminate.
+Qed.
+
+Lemma merge_extra_nonneg k : forall asg d,
+  (k <> V2000.PChg -> Forall (fun p : Z * Z => (0 <= snd p)%Z) asg) -> dict_nonneg d -> dict_nonneg (V2000.merge_extra k asg d).
+Proof.
+  induction asg as [|[a v] r IH]; intros d Ha Hd; cbn [V2000.merge_extra]; [exact Hd|].
+  apply IH.
+  - intros Hk. specialize (Ha Hk). inversion Ha; assumption.
+  - apply dict_set_Forall; [exact Hd|]. cbn [snd]. apply set_extra_nonneg.
+    + intros Hk. specialize (Ha Hk). inversion Ha as [|? ? H0 _]; subst. exact H0.
+    + change (extra_nonneg (match get_extra a d with Some e => e | None => V2000.mkExtra None None None end)).
+      destruct (get_extra a d) as [e|] eqn:Eg; [exact (get_extra_nonneg _ _ _ Hd Eg)|exact extra_nonneg_empty].
+Qed.
+
+Lemma parse_assignments_nonneg_ok n l a : V2000.parse_assignments_nonneg n l = ok a -> Forall (fun p : Z * Z => (0 <= snd p)%Z) a.
+Proof.
+  unfold V2000.parse_assignments_nonneg. intros H. inv_step H. inv_step H. injection H as <-.
+  match goal with C : existsb _ _ = false |- _ => apply existsb_false_Forall in C; revert C end.
+  apply Forall_impl. intros p Hp. apply Z.ltb_ge. exact Hp.
+Qed.
+
+Lemma attribute_block_nonneg n : forall k ls d reset d' reset',
+  length ls <= k -> dict_nonneg d -> V2000.attribute_block n ls d reset = ok (d', reset') -> dict_nonneg d'.
+Proof.
+  induction k as [|k IH]; intros ls d reset d' reset' Hlen Hd H.
+  - destruct ls; [discriminate H|simpl in Hlen; lia].
+  - destruct ls as [|l r]; [discriminate H|]. cbn [V2000.attribute_block] in H. simpl in Hlen.
+    inv_step H.
+    { destruct r as [|x r']; [discriminate H|]. simpl in Hlen. refine (IH _ _ _ _ _ _ Hd H); lia. }
+    inv_step H.
+    { inv_step H. refine (IH _ _ _ _ _ _ (merge_extra_nonneg _ _ _ _ Hd) H); [lia|intros Hk; contradiction Hk; reflexivity]. }
+    inv_step H.
+    { inv_step H. match goal with E : V2000.parse_assignments_nonneg _ _ = ok _ |- _ => apply parse_assignments_nonneg_ok in E; rename E into Hnn end.
+      refine (IH _ _ _ _ _ _ (merge_extra_nonneg _ _ _ (fun _ => Hnn) Hd) H); lia. }
+    inv_step H.
+    { inv_step H. match goal with E : V2000.parse_assignments_nonneg _ _ = ok _ |- _ => apply parse_assignments_nonneg_ok in E; rename E into Hnn end.
+      refine (IH _ _ _ _ _ _ (merge_extra_nonneg _ _ _ (fun _ => Hnn) Hd) H); lia. }
+    inv_step H.
+    { injection H as <- _. exact Hd. }
+    refine (IH _ _ _ _ _ _ Hd H); lia.
+Qed.
+
+Lemma over_nonneg new old : (forall v, new = Some v -> (0 <= v)%Z) -> (forall v, old = Some v -> (0 <= v)%Z) ->
+  forall v, V2000.over new old = Some v -> (0 <= v)%Z.
+Proof.
+  intros Hn Ho v. unfold V2000.over, V2000.nz. destruct new as [w|]; [|exact (Ho v)].
+  destruct (Z.eqb w 0); [exact (Ho v)|]. intros E. injection E as <-. exact (Hn w eq_refl).
+Qed.
+
+Lemma apply_extra_nonneg d reset a : dict_nonneg d -> ratom_nonneg a -> ratom_nonneg (V2000.apply_extra d reset a).
+Proof.
+  intros Hd [Hm Hr]. unfold V2000.apply_extra.
+  assert (Hr0 : forall v, (if reset then None else r_rad a) = Some v -> (0 <= v)%Z)
+    by (destruct reset; [discriminate|exact Hr]).
+  change (ratom_nonneg (match get_extra (r_idx a) d with
+    | None => mkRatom (r_idx a) (r_sym a) (r_zn a) (if reset then None else r_chg a) (r_mass a) (if reset then None else r_rad a) (r_x a) (r_y a) (r_z a)
+    | Some e => mkRatom (r_idx a) (r_sym a) (r_zn a) (V2000.over (V2000.x_chg e) (if reset then None else r_chg a))
+                        (V2000.over (V2000.x_mass e) (r_mass a)) (V2000.over (V2000.x_rad e) (if reset then None else r_rad a))
+                        (r_x a) (r_y a) (r_z a) end)).
+  destruct (get_extra (r_idx a) d) as [e|] eqn:Eg; unfold ratom_nonneg; cbn [r_mass r_rad].
+  - destruct (get_extra_nonneg _ _ _ Hd Eg) as [Xr Xm]. split; apply over_nonneg; assumption.
+  - split; assumption.
+Qed.
+
+Theorem read_v2000_nonneg : forall lines atoms bonds,
+  V2000.read_v2000 lines = ok (atoms, bonds) -> Forall ratom_nonneg atoms.
+Proof.
+  intros lines atoms bonds H. unfold V2000.read_v2000 in H.
+  repeat first [inv_step H | progress (cbv zeta in H)]. injection H as <- _.
+  match goal with E : V2000.parse_atom_lines _ _ = ok _ |- _ => apply v2000_parse_atom_lines_nonneg in E; rename E into Hats end.
+  match goal with E : V2000.attribute_block _ _ [] false = ok _ |- _ =>
+    apply (attribute_block_nonneg _ _ _ _ _ _ _ (le_n _) (Forall_nil _)) in E; rename E into Hd end.
+  apply Forall_map. revert Hats. apply Forall_impl. intros a. apply apply_extra_nonneg. exact Hd.
+Qed.
+
+(* ---- graph_from_molecule and the entry point ---- *)
+Lemma fold_res_inv_in {A B} (f : res A -> B -> res A) (Inv : A -> Prop) (Q : B -> Prop) :
+  (forall acc b l', Q b -> f acc b = ok l' -> exists l, acc = ok l /\ (Inv l -> Inv l')) ->
+  forall bds acc r, Forall Q bds -> (forall l, acc = ok l -> Inv l) -> fold_left f bds acc = ok r -> Inv r.
+Proof.
+  intros Hf. induction bds as [|b bds IH]; intros acc r HQ Hacc H; simpl in H.
+  - apply Hacc. exact H.
+  - inversion HQ as [|? ? Hb Hbs]; subst. apply (IH (f acc b) r Hbs); [|exact H].
+    intros l' E. destruct (Hf _ _ _ Hb E) as (l & El & Himp). apply Himp. apply Hacc. exact El.
+Qed.
+
+Lemma index_of_Z_inj l : forall i k k' u, index_of_Z k l i = Some u -> index_of_Z k' l i = Some u -> k = k'.
+Proof.
+  induction l as [|x r IH]; intros i k k' u H H'; simpl in H, H'; [discriminate H|].
+  destruct (Z.eqb_spec x k) as [Ek|Ek], (Z.eqb_spec x k') as [Ek'|Ek'].
+  - congruence.
+  - injection H as <-. apply index_of_Z_bound in H'. lia.
+  - injection H' as <-. apply index_of_Z_bound in H. lia.
+  - exact (IH _ _ _ _ H H').
+Qed.
+
+Definition bonds_irrefl {B} (l : list (N * N * B)) : Prop := forall b, In b l -> fst (ends b) <> snd (ends b).
+
+Lemma add_edge_irrefl {B} (e : N * N) (d : B) l : fst e <> snd e -> bonds_irrefl l -> bonds_irrefl (add_edge e d l).
+Proof.
+  intros He. induction l as [|b r IH]; intros Hl c Hc; simpl in Hc.
+  - destruct Hc as [<-|[]]. exact He.
+  - destruct (bond_eqb (ends b) e).
+    + destruct Hc as [<-|Hc]; [exact (Hl b (or_introl eq_refl))|apply Hl; right; exact Hc].
+    + destruct Hc as [<-|Hc]; [apply Hl; left; reflexivity|].
+      apply IH; [|exact Hc]. intros c' Hc'. apply Hl. right. exact Hc'.
+Qed.
+
+Lemma graph_from_molecule_irrefl ats bds g : Forall rbond_irrefl bds -> graph_from_molecule ats bds = ok g ->
+  bonds_irrefl (bonds g).
+Proof.
+  unfold graph_from_molecule. intros Hb H. cbv zeta in H. inv_step H. injection H as <-. cbn [bonds].
+  revert E. apply (fold_res_inv_in _ bonds_irrefl rbond_irrefl); [|exact Hb|intros l El; injection El as <-; intros b []].
+  clear. intros acc b l' Hb H. apply bind_ok in H. destruct H as (l0 & E & H). cbv beta in H.
+  exists l0. split; [exact E|]. intros Hinv.
+  destruct (index_of_Z (fst (fst b)) (map r_idx ats) 0) as [u|] eqn:Eu; [|discriminate H].
+  destruct (index_of_Z (snd (fst b)) (map r_idx ats) 0) as [v|] eqn:Ev; [|discriminate H].
+  injection H as <-. apply add_edge_irrefl; [|exact Hinv]. cbn [fst snd]. intros Euv. subst v.
+  exact (Hb (index_of_Z_inj _ _ _ _ _ Eu Ev)).
+Qed.
+
+Lemma read_molfile_inv2 s g : V2000.read_molfile s = ok g ->
+  exists ats bds, Forall ratom_nonneg ats /\ Forall rbond_irrefl bds /\ graph_from_molecule ats bds = ok g.
+Proof.
+  unfold V2000.read_molfile. intros H. cbv zeta in H. do 2 inv_step H.
+  destruct x0 as [ats bds]. simpl in H. exists ats, bds.
+  inv_step E0; [exact (conj (read_v3000_nonneg _ _ _ E0) (conj (read_v3000_no_self_bond _ _ _ E0) H))|].
+  inv_step E0. exact (conj (read_v2000_nonneg _ _ _ E0) (conj (read_v2000_no_self_bond _ _ _ E0) H)).
+Qed.
+
+(* the graph has no edge from a node to itself: together with read_molfile_ready, wfg *)
+Theorem read_molfile_no_self_bond : forall s g, V2000.read_molfile s = ok g ->
+  forall b, In b (bonds g) -> fst (ends b) <> snd (ends b).
+Proof.
+  intros s g H. destruct (read_molfile_inv2 s g H) as (ats & bds & _ & Hb & Hg).
+  exact (graph_from_molecule_irrefl _ _ _ Hb Hg).
+Qed.
+
+Theorem read_molfile_nonneg : forall s g, V2000.read_molfile s = ok g ->
+  forall x, In x (atoms g) -> (forall v, mass x = Some v -> (0 <= v)%Z) /\ (forall v, rad x = Some v -> (0 <= v)%Z).
+Proof.
+  intros s g H x Hx. destruct (read_molfile_inv2 s g H) as (ats & bds & Hn & _ & Hg).
+  destruct (graph_from_molecule_shape _ _ _ Hg) as [Ea _]. rewrite Ea in Hx.
+  apply in_map_iff in Hx. destruct Hx as (p & <- & Hp). apply enum_snd_in in Hp.
+  rewrite Forall_forall in Hn. exact (Hn _ Hp).
+Qed.
+
+(* no explicit zero + no negative value: every stored mass / radical is >= 1 *)
+Theorem read_molfile_positive : forall s g, V2000.read_molfile s = ok g ->
+  forall x, In x (atoms g) -> (forall v, mass x = Some v -> (1 <= v)%Z) /\ (forall v, rad x = Some v -> (1 <= v)%Z).
+Proof.
+  intros s g H x Hx. destruct (read_molfile_nonneg s g H x Hx) as [Nm Nr].
+  destruct (proj1 (read_molfile_nozero s g H x Hx)) as [Zm Zr].
+  split; intros v E; [specialize (Nm v E); assert (v <> 0%Z) by congruence | specialize (Nr v E); assert (v <> 0%Z) by congruence]; lia.
+Qed.
+
+(* all of wfg: distinct labels, no self-bond, endpoints in range *)
+Corollary read_molfile_wfg : forall s g, V2000.read_molfile s = ok g -> wfg g.
+Proof.
+  intros s g H. split; [exact (read_molfile_labels_nodup s g H)|].
+  intros b Hb. destruct (read_molfile_bonds_in_range s g H b Hb) as [H1 H2].
+  split; [exact (read_molfile_no_self_bond s g H b Hb)|]. split; assumption.
+Qed.
+
+(* ---- non-vacuity: the two kinds of text are rejected, in both formats ---- *)
+Definition ex3000_selfbond : list text :=
+  firstn 12 ex3000 ++ [t "M  V30 1 1 1 2"; t "M  V30 2 1 3 3"] ++ skipn 14 ex3000.
+Definition ex3000_negative : list text :=
+  firstn 9 ex3000 ++ [t "M  V30 3 O 0.0 1.0 0.0 0 CHG=-1 MASS=17 MASS=-1 RAD=2"] ++ skipn 10 ex3000.
+Definition ex2000_selfbond : list text := firstn 7 ex2000 ++ [t "  1  2  1  0  0  0  0"; t "  3  3  1  0  0  0  0"] ++ skipn 9 ex2000.
+Definition ex2000_negative : list text := firstn 11 ex2000 ++ [t "M  ISO  2   1   0   3  -1"; t "M  END"].
+
+Example ex_rejected :
+  V2000.read_molfile (join_with nl ex3000_selfbond) = inl EParser /\
+  V2000.read_molfile (join_with nl ex3000_negative) = inl EParser /\
+  V2000.read_molfile (join_with nl ex2000_selfbond) = inl EParser /\
+  V2000.read_molfile (join_with nl ex2000_negative) = inl EParser.
+Proof. vm_compute. repeat split. Qed.
+
 Print Assumptions read_v3000_nozero.
 Print Assumptions read_v2000_nozero.
 Print Assumptions read_molfile_nozero.
 Print Assumptions read_molfile_labels.
 Print Assumptions read_molfile_bonds_in_range.
 Print Assumptions read_molfile_ready.
+Print Assumptions read_v3000_no_self_bond.
+Print Assumptions read_v2000_no_self_bond.
+Print Assumptions read_v3000_nonneg.
+Print Assumptions read_v2000_nonneg.
+Print Assumptions read_molfile_no_self_bond.
+Print Assumptions read_molfile_nonneg.
+Print Assumptions read_molfile_positive.
+Print Assumptions read_molfile_wfg.
